@@ -9,8 +9,9 @@ import numeric
 
 class Pair:
     def __init__(self, e1, e2, targets, label, special=None, meta=None,
-                 deltas=False):
+                 deltas=False, frac=None):
         self.deltas = deltas
+        self.frac = frac      # name of the orbital-energy tensor or None
         self.e1, self.e2 = e1, e2
         self.targets = list(targets)
         self.label = label
@@ -23,50 +24,110 @@ class Pair:
 
 
 def prepare(pair):
-    ctx = adcio.IdxCtx()
-    pair.p1 = adcio.conv_expr(pair.e1, ctx)
-    pair.p2 = adcio.conv_expr(pair.e2, ctx)
-    pair.tg = [ctx.conv(x) for x in pair.targets]
-    return coq_case(pair.p1, pair.p2, pair.tg, pair.deltas)
+    if pair.p1 is None:      # otherwise the pyterms were supplied directly
+        ctx = adcio.IdxCtx()
+        pair.p1 = adcio.conv_expr(pair.e1, ctx)
+        pair.p2 = adcio.conv_expr(pair.e2, ctx)
+        pair.tg = [ctx.conv(x) for x in pair.targets]
+    return coq_case(pair.p1, pair.p2, pair.tg, pair.deltas, pair.frac,
+                    mode=getattr(pair, "mode", None),
+                    coq1=getattr(pair, "coq1", None),
+                    coq2=getattr(pair, "coq2", None))
 
 
-def coq_case(p1, p2, tgc, deltas=False):
+def coq_case(p1, p2, tgc, deltas=False, frac=None, mode=None, coq1=None,
+             coq2=None):
     """Coq term deciding p1 == p2 (pyterm lists) with targets tgc; with
     deltas=True the certificate may eliminate Kronecker deltas
     (ADC.Core.Equiv2.check_equiv2; evaluate with adcio.COQ_HEADER2)"""
-    c1, f1 = certfind.expr_cert(p1, tgc, deltas)
-    c2, f2 = certfind.expr_cert(p2, tgc, deltas)
     tg = adcio.coq_list(x.coq() for x in tgc)
+    if frac is not None:
+        # pool names may enter through the renamings: list them as variables
+        c1, f1 = certfind.expr_cert(p1, tgc, True, frac, mode)
+        c2, f2 = certfind.expr_cert(p2, tgc, True, frac, mode)
+        vs = certfind.eps_vars([p1, p2], frac)
+        sorts = {}
+        for v in vs:
+            sorts[v.sort] = sorts.get(v.sort, 0) + 1
+        allv = list(vs)
+        for sort, n in sorts.items():
+            for q in certfind.pool_names(sort, set(), n + len(tgc) + 2):
+                if q not in allv:
+                    allv.append(q)
+        return (f"check_equiv_frac {adcio.coq_str(frac)} "
+                f"{adcio.coq_list(x.coq() for x in allv)} {tg} "
+                f"{adcio.coq_cert2(c1)} {adcio.coq_cert2(c2)} "
+                f"{coq1 or adcio.coq_expr(p1)} {coq2 or adcio.coq_expr(p2)}")
+    c1, f1 = certfind.expr_cert(p1, tgc, deltas, mode=mode)
+    c2, f2 = certfind.expr_cert(p2, tgc, deltas, mode=mode)
     if deltas:
         return (f"check_equiv2 {tg} {adcio.coq_cert2(c1)} "
-                f"{adcio.coq_cert2(c2)} {adcio.coq_expr(p1)} "
-                f"{adcio.coq_expr(p2)}")
+                f"{adcio.coq_cert2(c2)} {coq1 or adcio.coq_expr(p1)} "
+                f"{coq2 or adcio.coq_expr(p2)}")
     return (f"check_equiv {tg} {adcio.coq_cert(c1)} {adcio.coq_cert(c2)} "
-            f"{adcio.coq_expr(p1)} {adcio.coq_expr(p2)}")
+            f"{coq1 or adcio.coq_expr(p1)} {coq2 or adcio.coq_expr(p2)}")
 
 
-def run_pairs(ctx, tag, pairs, shard=40, search=True, timeout=900):
+def run_pairs(ctx, tag, pairs, shard=40, search=True, timeout=900,
+              header=None):
     """returns the list of pairs with .ok filled in (True / False / None when
-    the input is outside the validator's fragment)"""
-    cases, idxs = [], []
-    for n, p in enumerate(pairs):
-        try:
-            cases.append(prepare(p))
-            idxs.append(n)
-        except adcio.Unsupported as ex:
-            p.ok = None
-            p.err = f"unsupported: {ex}"
-    hdr = adcio.COQ_HEADER2 if any(p.deltas for p in pairs) else None
-    vals, errs = ctx.coq_eval(tag, cases, header=hdr, shard=shard,
-                              timeout=timeout)
-    for n, v in zip(idxs, vals):
-        p = pairs[n]
-        if v is None:
-            p.ok = False
-            p.err = "coq evaluation failed: " + "; ".join(errs)[:500]
-        else:
-            p.ok = (v == "true")
-        if p.ok is False and search:
+    the input is outside the validator's fragment).  Fraction pairs are tried
+    with increasingly expensive certificates (identity, canonical
+    relabelling, automorphism average)."""
+    hdr = header
+    if hdr is None:
+        hdr = adcio.COQ_HEADER2 if any(p.deltas for p in pairs) else None
+        if any(p.frac for p in pairs):
+            hdr = adcio.COQ_HEADER3
+    todo = list(range(len(pairs)))
+    modes = ["identity", "canon", "aut"] if any(p.frac for p in pairs) \
+        else [None]
+    for stage, mode in enumerate(modes):
+        cases, idxs = [], []
+        for n in todo:
+            p = pairs[n]
+            if p.ok:
+                continue
+            p.mode = mode
+            try:
+                cases.append(prepare(p))
+                idxs.append(n)
+            except adcio.Unsupported as ex:
+                p.ok = None
+                p.err = f"unsupported: {ex}"
+        if not cases:
+            break
+        vals, errs = ctx.coq_eval(f"{tag}{stage}", cases, header=hdr,
+                                  shard=shard,
+                                  timeout=timeout if stage == 0 else 300)
+        todo = []
+        for n, v in zip(idxs, vals):
+            p = pairs[n]
+            if v is None:
+                p.ok = False
+                p.err = "coq evaluation failed: " + "; ".join(errs)[:500]
+            else:
+                p.ok = (v == "true")
+                p.err = None
+            if not p.ok:
+                todo.append(n)
+        if search and stage + 1 < len(modes):
+            # a concrete numeric difference settles the case: no need for
+            # more expensive certificates
+            still = []
+            for n in todo:
+                p = pairs[n]
+                try:
+                    p.diff = numeric.find_difference(
+                        p.p1, p.p2, p.tg, ctx.rng, special=p.special,
+                        models=2, assigns=4)
+                except Exception:
+                    p.diff = None
+                if p.diff is None:
+                    still.append(n)
+            todo = still
+    for p in pairs:
+        if p.ok is False and search and p.diff is None:
             try:
                 p.diff = numeric.find_difference(
                     p.p1, p.p2, p.tg, ctx.rng, special=p.special)
